@@ -314,8 +314,8 @@ def norm_line(l, keep_ord=False):
 
 
 def first_diff(model_lines, impl_lines, keep_ord=False):
-    m = [norm_line(l, keep_ord) for l in model_lines if not l.startswith("sched ")]
-    i = [norm_line(l, keep_ord) for l in impl_lines if not l.startswith("sched ")]
+    m = [norm_line(l, keep_ord) for l in model_lines if not l.startswith(("sched ", "Z "))]
+    i = [norm_line(l, keep_ord) for l in impl_lines if not l.startswith(("sched ", "Z "))]
     for k in range(max(len(m), len(i))):
         a = m[k] if k < len(m) else "<nothing>"
         b = i[k] if k < len(i) else "<nothing>"
@@ -501,6 +501,8 @@ def parse_case_text(txt):
             cur["reps"] = int(w[1])
         elif w[0] == "freeze":
             cur["freeze"] = [int(w[1]), int(w[2])]
+        elif w[0] == "elem":
+            cur["elem"] = w[1]
         elif w[0] == "sched":
             cur["sched"] = None if w[1] == "-" else ([] if w[1] == "." else [int(x) for x in w[1].split(",")])
         elif w[0] == "end":
@@ -1015,3 +1017,101 @@ def special_c14(prop, tier, seed, bins, out, problems):
 
 
 SPECIAL["C14"] = special_c14
+
+
+def special_c15(prop, tier, seed, bins, out, problems):
+    """(1) counting global allocator: every history is run three times in one process (create, consume fully / partly /
+    not at all, drop, also after concurrent use); live bytes and blocks of the process must not grow from the second
+    repetition on.  (2) zero-sized elements with a destructor: the number of elements dropped by the caller plus the
+    number destroyed by the machinery must be the length of the collection at the end of life."""
+    binp = bins.get("wrapping")
+    if binp is None:
+        return
+    n = 300 if tier == "quick" else 3000
+    cases = gen_cases.stream("C15", seed + 51, n, "wrapping")
+    text = "".join(gen_cases.fmt_case(c) for c in cases)
+    mblocks, order = parse_blocks(run_model(text))
+    by_id = {c["id"]: c for c in cases}
+    rep_cases = []
+    for cid in order:
+        c = json.loads(json.dumps(by_id[cid]))
+        c["id"] = "alloc-" + cid
+        c["sched"] = sched_of(mblocks[cid])
+        c["reps"] = 3
+        rep_cases.append(c)
+    itraces, dead = run_impl(binp, rep_cases)
+    iblocks, _ = parse_blocks(itraces)
+    growth = {}
+    for m in re.finditer(r"^alloc (\S+) reps=(\d+) growth_bytes=(-?\d+) growth_blocks=(-?\d+)$", itraces, re.M):
+        growth[m.group(1)] = (int(m.group(3)), int(m.group(4)))
+    measured = 0
+    for c in rep_cases:
+        cid = c["id"]
+        il = iblocks.get(cid)
+        if cid in dead or il is None:
+            out["violations"].append(dict(case=c, stream="allocator", checker="process",
+                                          what="the harness process died on this case: %s" % dead.get(cid, "no output")))
+            continue
+        if any(l.startswith("complete 0") for l in il):
+            continue   # a hang is reported by the other streams; the iterator is leaked on purpose then
+        g = growth.get(cid)
+        if g is None:
+            out["divergences"].append(dict(case=c, stream="allocator", impl_trace=il, what="no allocator report for this case"))
+            continue
+        measured += 1
+        if g != (0, 0):
+            # a leak grows with every repetition: confirm on the case alone with more repetitions (the figures of one run can
+            # be disturbed by the teardown of the worker threads)
+            c5 = json.loads(json.dumps(c))
+            c5["reps"] = 6
+            t5, d5 = run_impl(binp, [c5])
+            m5 = re.search(r"^alloc (\S+) reps=6 growth_bytes=(-?\d+) growth_blocks=(-?\d+)$", t5, re.M)
+            g5 = (int(m5.group(2)), int(m5.group(3))) if m5 else None
+            if g5 is not None and (g5[0] > 0 or g5[1] > 0):
+                out["violations"].append(dict(case=c, stream="allocator", checker="alloc",
+                                              impl_trace=il + ["alloc reps=3 growth_bytes=%d growth_blocks=%d" % g, "alloc reps=6 growth_bytes=%d growth_blocks=%d" % g5],
+                                              what="repeating create / consume / drop grows the live heap: %d bytes in %d blocks over five repetitions (%d bytes over two)" % (g5[0], g5[1], g[0])))
+    out["evaluations"] += len(rep_cases)
+    out["traces_validated_against_impl"] += measured
+    # zero-sized elements with a destructor
+    r = gen_cases.Rng(seed * 4243 + 15)
+    zc = []
+    for i in range(n // 2):
+        c = gen_cases.gen_conc(r, "C15-zst-%d" % i, gen_cases.WITH_SKIP if r.chance(1, 2) else gen_cases.PULLS,
+                               kinds=[("vec", 4), ("array", 3), ("iter", 3)], owning_only=True)
+        c["elem"] = "zst"
+        c["sched"] = None
+        c["reps"] = 2
+        if r.chance(1, 3):
+            c["progs"] = [p[:r.below(2)] for p in c["progs"]]    # consumed not at all / hardly
+        zc.append(c)
+    ztr, zdead = run_impl(binp, zc)
+    zblocks, _ = parse_blocks(ztr)
+    zok = 0
+    for c in zc:
+        cid = c["id"]
+        il = zblocks.get(cid)
+        if cid in zdead or il is None:
+            out["violations"].append(dict(case=c, stream="zst", checker="process",
+                                          what="the harness process died on this case: %s" % zdead.get(cid, "no output")))
+            continue
+        if any(l.startswith("complete 0") for l in il):
+            continue
+        zl = [l for l in il if l.startswith("Z ")]
+        m = re.match(r"Z caller=(\d+) machinery=(\d+) len=(\d+)", zl[0]) if zl else None
+        if not m:
+            out["divergences"].append(dict(case=c, stream="zst", impl_trace=il, what="no drop count for this case"))
+            continue
+        a, b, ln = int(m.group(1)), int(m.group(2)), int(m.group(3))
+        zok += 1
+        c2 = json.loads(json.dumps(c))
+        c2["sched"] = sched_of(il)
+        if a + b != ln:
+            out["violations"].append(dict(case=c2, stream="zst", checker="zst-drops", impl_trace=il,
+                                          what="zero-sized elements with a destructor: %d dropped by the caller + %d destroyed by the machinery != %d elements" % (a, b, ln)))
+    out["evaluations"] += len(zc)
+    out["random_schedules"] += len(zc)
+    extra_coverage.setdefault(prop, {}).update(allocator_cases=measured, zero_sized_cases=zok)
+
+
+SPECIAL["C15"] = special_c15
